@@ -489,7 +489,7 @@ class C12(ScanProperty):
                    'observed by the correspondence; exclusion of aliasing by &mut is the type system\'s guarantee, not proved']
     RULE = ('worlds of 2..3 iterators over 1..2 inputs created from one Scanner or from two scanners obtained through the cache for '
             'equal configurations, with set_mode on the Scanner, partially consumed and dropped iterators, interleaved next / peek_n '
-            '/ set_offset / set_mode / advance_to; each iterator\'s outputs are compared with the Coq model run on its own '
+            '/ set_offset / set_mode / advance_to; in 30% of the worlds the inputs are slices of ONE buffer with the same start and different ends (aliased inputs, harness option shared_storage); each iterator\'s outputs are compared with the Coq model run on its own '
             'projection; non-trivial = distinct world in which at least two iterators delivered tokens in an interleaved order')
     N = {'quick': 250, 'thorough': 5000}
 
